@@ -630,6 +630,42 @@ func (e *Exec) LockRW(r *ObjRef) {
 	m.rdc = nil
 }
 
+// TryLock models Mutex.TryLock / RWMutex.TryLock (read = false) and RWMutex.TryRLock (read = true):
+// a scheduling point that acquires the lock if it is free at that instant and reports whether it did.
+func (e *Exec) TryLock(r *ObjRef, read bool) bool {
+	id := e.objID(r)
+	t := e.point(OpAtomic, id, 0, nil)
+	if t.aborted {
+		return false
+	}
+	m := e.mu(id)
+	joinVC(&t.dc, m.dc)
+	if !read {
+		joinVC(&t.dc, m.rdc)
+	}
+	ok := m.writer == nil && m.pending == nil && (read || m.readers == 0)
+	x := uint64(2)
+	if ok {
+		x = 3
+		joinVC(&t.vc, m.vc)
+		if read {
+			m.readers++
+		} else {
+			m.writer = t
+		}
+	}
+	e.event(t, OpLock, x)
+	if read {
+		joinVC(&m.rdc, t.dc)
+	} else {
+		m.dc = cloneVC(t.dc)
+		if ok {
+			m.rdc = nil
+		}
+	}
+	return ok
+}
+
 func (e *Exec) Unlock(r *ObjRef) {
 	t := e.running
 	if t.aborted {
@@ -839,6 +875,19 @@ func Choose(n int) int {
 	e.fp = mix(e.fp, uint64(c)+uint64(n)<<8)
 	return c
 }
+
+// Sleep replaces time.Sleep in instrumented code: detached it sleeps; under a controlled execution
+// real time does not exist, the sleeper just lets every other runnable thread take a step first.
+func Sleep(d time.Duration) {
+	if cur == nil {
+		time.Sleep(d)
+		return
+	}
+	SpinYield()
+}
+
+// Epoch identifies the execution (shims reset per-execution state with it).
+func (e *Exec) Epoch() uint64 { return uint64(e.epoch) }
 
 // SpawnCount returns how many threads the calling thread has started so far (harness use: which
 // request of a client a goroutine belongs to).
